@@ -108,13 +108,29 @@ class Check:
         self.failures.append({"key": key, "what": what, "input": inp})
 
     # ------------------------------------------------------------------ coq
+    def _dep_dirs(self) -> list[str]:
+        """coq/lib, the property's own directory and every property directory its files import"""
+        seen, todo = ["lib"], [self.pid]
+        while todo:
+            d = todo.pop()
+            if d in seen or not os.path.isdir(os.path.join(COQ, d)):
+                continue
+            seen.append(d)
+            for path in glob.glob(os.path.join(COQ, d, "*.v")):
+                with open(path, encoding="utf-8") as f:
+                    for m in re.finditer(r"\b(C\d\d)\.[A-Z]", f.read()):
+                        if m.group(1) not in seen:
+                            todo.append(m.group(1))
+        return seen
+
     def forbidden_scan(self):
         bad = []
-        for path in glob.glob(os.path.join(COQ, "**", "*.v"), recursive=True):
-            with open(path, encoding="utf-8") as f:
-                txt = re.sub(r"\(\*.*?\*\)", "", f.read(), flags=re.S)
-            for m in FORBIDDEN.finditer(txt):
-                bad.append(f"{os.path.relpath(path, COQ)}: {m.group(0)}")
+        for d in self._dep_dirs():
+            for path in glob.glob(os.path.join(COQ, d, "*.v")):
+                with open(path, encoding="utf-8") as f:
+                    txt = re.sub(r"\(\*.*?\*\)", "", f.read(), flags=re.S)
+                for m in FORBIDDEN.finditer(txt):
+                    bad.append(f"{os.path.relpath(path, COQ)}: {m.group(0)}")
         if bad:
             self.broken("forbidden-vernacular", "coq sources", "; ".join(bad[:10]))
         return not bad
@@ -175,6 +191,26 @@ class Check:
                     if t not in self.trusted:
                         self.trusted.append(t)
         return ok
+
+    def coqchk(self, modules: list[str], timeout=3000) -> bool:
+        """independent re-check of the compiled property files (thorough tier): coqchk -o"""
+        with Lock():
+            rc, out, err = sh(["coqchk", "-silent", "-o", "-Q", ".", "Wz", *modules], cwd=COQ, timeout=timeout)
+        txt = out + err
+        m = re.search(r"\* Axioms:(.*?)\n\s*\n\* Constants/Inductives relying on type-in-type", txt, flags=re.S)
+        axioms = m.group(1).strip() if m else "?"
+        ok = rc == 0 and axioms == "<none>" and "relying on unsafe (co)fixpoints: <none>" in txt \
+            and "positivity is assumed: <none>" in txt and "relying on type-in-type: <none>" in txt
+        self.cov["coqchk"] = {"modules": modules, "exit": rc, "axioms": axioms}
+        if rc != 0:
+            self.broken("proof", "coqchk " + " ".join(modules), txt[-1500:])
+        elif not ok:
+            names = [a.strip() for a in axioms.splitlines() if a.strip()]
+            bad = [a for a in names if a.split(".")[-1] not in ALLOWED_AXIOMS]
+            if bad or "<none>" not in txt:
+                self.broken("proof", "coqchk reports assumptions", axioms[-800:])
+        self.trusted.append(f"coqchk -o on {' '.join(modules)}: axioms {axioms}")
+        return rc == 0
 
     # ------------------------------------------------------------------ extraction
     def build_modelrun(self, sub: str) -> str | None:
